@@ -17,7 +17,7 @@ type PropSpec struct {
 var properties = map[string]PropSpec{
 	"C19": {
 		Level: "other",
-		Explanation: "Explicitly narrow: necessary conditions of C19 only. MOVE: implode stores through the header exactly twice per step - the gap receives a non-nil value loaded from a later slot of the same stack (source slot = destination slot + a count proved >= 0) and exactly that source slot is then cleared - and stores no header: compaction moves existing values forward and fabricates, duplicates or drops nothing by itself. SCAN: implode's loop can be left only when the scan limit is reached (max <= count) or the slot about to be examined lies beyond the content (ulen <= start+count), by linear entailment at every exit - the last slot is examined too. GAP: defrag compacts, records an error and truncates only on paths where a nil element was found below the scan limit; a stack without nil elements is untouched. ERR: the error recorded is verifyImplode's own verdict and the header is truncated only under a nil verdict, after the compaction. NEST: Stack.Defrag consults IsNesting on every path on which the receiver was defragmented, visits elements 0..Len-1 in order and hands nested Stacks - direct elements or a Condition's expression, through both alias converters - the same scan limit. MAX: the scan limit is positive (50 unless a positive one is given). Index and slice ranges of defrag/implode/verifyImplode are C08's obligations (one of them, the truncation index, is the recorded assumption). What Defrag relies on is checked as well: stack.index's found flag means exactly 'the slot is not nil' (R-SEQ), IsNesting is truthful and uncached (R-SCAN, R-TT), and calculateDefragMax returns a positive request as given (no ceiling). The verdict of verifyImplode is recorded on every path that verified (a nil verdict clears an older error); isStackKind judges by the pointer-flattened type at any depth (R-TT). R-MASK/R-FLAGS: the index options the scan honours and the read-only bit stay off when switched off. Condition.Expression answers the stored expression on every path of an initialised instance (a recorded error does not hide a nested Stack from Defrag). Shared option helpers, checked in every property whose statement depends on an option: the bit helpers are exact |= / &^= / test (R-MASK), the option constants are distinct single bits (R-FLAGS), and the tests every option read goes through - (*nodeConfig).valid and getState - depend on the kind word and the raw bit only (R-TT). Shared conversion helpers, checked in every property that recognises nested Stacks/Conditions: derefPtr follows pointers to the end, only while non-nil, type and value together (R-COVER), and isStackKind judges by the pointer-flattened type (R-TT).",
+		Explanation: "Explicitly narrow: necessary conditions of C19 only. MOVE: implode stores through the header exactly twice per step - the gap receives a non-nil value loaded from a later slot of the same stack (source slot = destination slot + a count proved >= 0) and exactly that source slot is then cleared - and stores no header: compaction moves existing values forward and fabricates, duplicates or drops nothing by itself. SCAN: implode's loop can be left only when the scan limit is reached (max <= count) or the slot about to be examined lies beyond the content (ulen <= start+count), by linear entailment at every exit - the last slot is examined too. GAP: defrag compacts, records an error and truncates only on paths where a nil element was found below the scan limit; a stack without nil elements is untouched. ERR: the error recorded is verifyImplode's own verdict and the header is truncated only under a nil verdict, after the compaction. NEST: Stack.Defrag consults IsNesting on every path on which the receiver was defragmented, visits elements 0..Len-1 in order and hands nested Stacks - direct elements or a Condition's expression, through both alias converters - the same scan limit. MAX: the scan limit is positive (50 unless a positive one is given). Index and slice ranges of defrag/implode/verifyImplode are C08's obligations (one of them, the truncation index, is the recorded assumption). What Defrag relies on is checked as well: stack.index's found flag means exactly 'the slot is not nil' (R-SEQ), IsNesting is truthful and uncached (R-SCAN, R-TT), and calculateDefragMax returns a positive request as given (no ceiling). The verdict of verifyImplode is recorded on every path that verified (a nil verdict clears an older error); isStackKind judges by the pointer-flattened type at any depth (R-TT). R-MASK/R-FLAGS: the index options the scan honours and the read-only bit stay off when switched off. Condition.Expression answers the stored expression on every path of an initialised instance (a recorded error does not hide a nested Stack from Defrag). Shared option helpers, checked in every property whose statement depends on an option: the bit helpers are exact |= / &^= / test (R-MASK), the option constants are distinct single bits (R-FLAGS), and the tests every option read goes through - (*nodeConfig).valid and getState - depend on the kind word and the raw bit only (R-TT). Shared conversion helpers, checked in every property that recognises nested Stacks/Conditions: derefPtr follows pointers to the end, only while non-nil, type and value together (R-COVER), isStackKind judges by the pointer-flattened type (R-TT), and the converters write no package-level state (R-CONV: no memo keyed by type). R-DEFRAG: verifyImplode turns positions into map keys with strconv.Itoa only (distinct keys for distinct positions). R-CONV: the converters keep no package-level state (no memo keyed by type that a nil pointer could poison).",
 		NotDecided: "THE CORE OF C19 IS NOT DECIDED: that the result holds exactly the former non-nil elements in order, that Len equals their count and that Err() is nil. The truncation index and the verdict come from verifyImplode's pattern bookkeeping (a map filled in the same loop), a functional property of data out of reach of these domains. The pinned tree is in fact known - from an exhaustive run over all nil patterns of length <= 8 made by an independent test agent, not from this check - to violate the core for most patterns (e.g. Push(\"x\",nil,\"y\").Defrag() leaves [x y nil]; Push(nil,nil,nil,nil,4).Defrag() loses 4); the pinned test TestDefrag_experimental_001 hard-codes the resulting (wrong) length, so no repair can keep the unedited suite passing and none was made. This check neither reports nor masks that defect.",
 		Run: func(c *Ctx) {
 			c.optionHelpers()
@@ -33,12 +33,13 @@ var properties = map[string]PropSpec{
 			c.ruleMask() // the index options Defrag's scan honours and the read-only bit stay off when switched off
 			c.ruleFlagsDistinct()
 			c.ruleCondGetters() // a Condition's nested Stack is reached through Expression(), which answers the stored value
+			c.ruleDefragKeys()  // the position bookkeeping of verifyImplode uses distinct keys (strconv.Itoa)
 			c.rep.floor("R-DEFRAG", 4)
 		},
 	},
 	"C02": {
 		Level: "other",
-		Explanation: "Structural clauses of the String() grammar, each a necessary condition whose violation changes the rendering. NOT: in the Stack branch of defaultAssertionHandler every stack-level reading (kind, symbol, rendering) is made on the nested, converted Stack - never on the enclosing one; the NOT word is prefixed only on paths where the nested kind is NOT, it has no symbol and its rendering is non-empty (an empty nested stack contributes nothing: no dangling operator), and the word is exactly the one typ() of the nested stack returned, i.e. in the NOT stack's own case. EMPTY: stack.string collects renderings only by append(list, val) under len(val) > 0 for the very value defaultAssertionHandler returned for slot i (i = 1, 2, ... in stored order) and hands exactly that list to the assembler, so BASIC stacks, empty stacks and invalid Conditions (which render to the empty string) leave no dangling operator or delimiter. UTF8: condenseWHSP ranges over runes, writes every rune except blank (32) and tab (9) unchanged, writes one blank only for a blank or tab and uses no Unicode class test - leaf text of any script is reproduced verbatim. ENCAP: encapValue walks the pair list from the last pair to the first and wraps the value built so far as L+v+R or c+v+c, so the first configured pair ends up outermost; Condition expressions pass through it on every rendering path (R-ENCAP in C06). PAREN: stack.paren wraps exactly when the parenthetical bit is set and the kind is not BASIC (table over both atoms), with the same padding left and right. INVALID: the unguarded Condition renderer condition.string is called, anywhere in the package, only where Valid() of that very Condition has just returned nil. LEAF: in defaultAssertionHandler the text of a leaf (own String method, primitive stringer) goes to the enclosing stack's encapv and from there to padValue and the result, nothing in between; encapv hands its argument and the receiver's own pair list to encapValue; encapValue returns the bare argument only when no pair is configured (the empty string is wrapped like any other text). JOIN: a small symbolic string evaluator (constants, concatenation, path-bound phis, padValue - whose own table is checked first) computes the separator handed to join on every path of assembleStringStack and compares it with the table: word operator -> blank(s) word blank(s); symbol -> blank(s) symbol blank(s), or the bare symbol under no-padding; LIST -> the delimiter when one is set, otherwise blanks only; all five rows must reach a join. LEADONCE: the leading operator of lead-once mode is written only where at least one element rendering follows (an empty stack contributes no dangling operator). Rendering is gated by canString (valid and kind not BASIC) and the presentation policy dispatch (C14); option polarity of the getters is C18. VERBATIM: the getters the rendering code uses for the symbol and the LIST delimiter return the stored configuration field itself (nothing is applied on the way), and stack.typ hands a configured symbol on untouched - case folding applies to operator words only. OPERATOR: the operator text stack.string hands to the assembler is typ()'s text, between blanks exactly when padding is on and no symbol is set. NUMBER: a float/complex leaf is formatted at the width of its own type (FormatFloat(float64(x),..,32) for a float32). R-PURE (the effect analysis of C11 on every query): rendering reads and never writes - no memo, cache or scratch buffer in shared state - so the text is a function of the current tree and options, not of earlier calls. NOBYPASS: encapv returns encapValue's result or nothing, a wrapping helper inside encapValue must be left+v+right on every path, and assembleStringStack returns condenseWHSP(paren(...)) on every path - no rendering escapes encapsulation or the condensation of blanks. NUMBER: nothing in the primitive stringers converts an unsigned integer to a signed one. FOLD: foldValue returns the bare word only with folding off or for the empty word; with folding on every non-empty word, of any length (OR as well as AND), is strings.ToUpper/ToLower of itself. A leaf's String method is looked up on reflect.ValueOf of the value as given (pointer-receiver stringers and pointers to zero values are found). R-MASK/R-FLAGS: the presentation options are switched by exact |= / &^= of one distinct bit, so an option switched off while already off stays off. Shared option helpers, checked in every property whose statement depends on an option: the bit helpers are exact |= / &^= / test (R-MASK), the option constants are distinct single bits (R-FLAGS), and the tests every option read goes through - (*nodeConfig).valid and getState - depend on the kind word and the raw bit only (R-TT). Shared conversion helpers, checked in every property that recognises nested Stacks/Conditions: derefPtr follows pointers to the end, only while non-nil, type and value together (R-COVER), and isStackKind judges by the pointer-flattened type (R-TT).",
+		Explanation: "Structural clauses of the String() grammar, each a necessary condition whose violation changes the rendering. NOT: in the Stack branch of defaultAssertionHandler every stack-level reading (kind, symbol, rendering) is made on the nested, converted Stack - never on the enclosing one; the NOT word is prefixed only on paths where the nested kind is NOT, it has no symbol and its rendering is non-empty (an empty nested stack contributes nothing: no dangling operator), and the word is exactly the one typ() of the nested stack returned, i.e. in the NOT stack's own case. EMPTY: stack.string collects renderings only by append(list, val) under len(val) > 0 for the very value defaultAssertionHandler returned for slot i (i = 1, 2, ... in stored order) and hands exactly that list to the assembler, so BASIC stacks, empty stacks and invalid Conditions (which render to the empty string) leave no dangling operator or delimiter. UTF8: condenseWHSP ranges over runes, writes every rune except blank (32) and tab (9) unchanged, writes one blank only for a blank or tab and uses no Unicode class test - leaf text of any script is reproduced verbatim. ENCAP: encapValue walks the pair list from the last pair to the first and wraps the value built so far as L+v+R or c+v+c, so the first configured pair ends up outermost; Condition expressions pass through it on every rendering path (R-ENCAP in C06). PAREN: stack.paren wraps exactly when the parenthetical bit is set and the kind is not BASIC (table over both atoms), with the same padding left and right. INVALID: the unguarded Condition renderer condition.string is called, anywhere in the package, only where Valid() of that very Condition has just returned nil. LEAF: in defaultAssertionHandler the text of a leaf (own String method, primitive stringer) goes to the enclosing stack's encapv and from there to padValue and the result, nothing in between; encapv hands its argument and the receiver's own pair list to encapValue; encapValue returns the bare argument only when no pair is configured (the empty string is wrapped like any other text). JOIN: a small symbolic string evaluator (constants, concatenation, path-bound phis, padValue - whose own table is checked first) computes the separator handed to join on every path of assembleStringStack and compares it with the table: word operator -> blank(s) word blank(s); symbol -> blank(s) symbol blank(s), or the bare symbol under no-padding; LIST -> the delimiter when one is set, otherwise blanks only; all five rows must reach a join. LEADONCE: the leading operator of lead-once mode is written only where at least one element rendering follows (an empty stack contributes no dangling operator). Rendering is gated by canString (valid and kind not BASIC) and the presentation policy dispatch (C14); option polarity of the getters is C18. VERBATIM: the getters the rendering code uses for the symbol and the LIST delimiter return the stored configuration field itself (nothing is applied on the way), and stack.typ hands a configured symbol on untouched - case folding applies to operator words only. OPERATOR: the operator text stack.string hands to the assembler is typ()'s text, between blanks exactly when padding is on and no symbol is set. NUMBER: a float/complex leaf is formatted at the width of its own type (FormatFloat(float64(x),..,32) for a float32). R-PURE (the effect analysis of C11 on every query): rendering reads and never writes - no memo, cache or scratch buffer in shared state - so the text is a function of the current tree and options, not of earlier calls. NOBYPASS: encapv returns encapValue's result or nothing, a wrapping helper inside encapValue must be left+v+right on every path, and assembleStringStack returns condenseWHSP(paren(...)) on every path - no rendering escapes encapsulation or the condensation of blanks. NUMBER: nothing in the primitive stringers converts an unsigned integer to a signed one. FOLD: foldValue returns the bare word only with folding off or for the empty word; with folding on every non-empty word, of any length (OR as well as AND), is strings.ToUpper/ToLower of itself. A leaf's String method is looked up on reflect.ValueOf of the value as given (pointer-receiver stringers and pointers to zero values are found). R-MASK/R-FLAGS: the presentation options are switched by exact |= / &^= of one distinct bit, so an option switched off while already off stays off. Shared option helpers, checked in every property whose statement depends on an option: the bit helpers are exact |= / &^= / test (R-MASK), the option constants are distinct single bits (R-FLAGS), and the tests every option read goes through - (*nodeConfig).valid and getState - depend on the kind word and the raw bit only (R-TT). Shared conversion helpers, checked in every property that recognises nested Stacks/Conditions: derefPtr follows pointers to the end, only while non-nil, type and value together (R-COVER), isStackKind judges by the pointer-flattened type (R-TT), and the converters write no package-level state (R-CONV: no memo keyed by type). NUMBER: every result of intStringer/uintStringer/floatStringer/complexStringer is a strconv.Format* result (no hand-made digits, no shortcut for small values). NOBYPASS: condenseWHSP returns the text its rune loop built on every path. R-TT: isStringPrimitive/isBoolPrimitive answer the type test and nothing else (the empty string is a string).",
 		NotDecided: "equality of the produced string with the canonical rendering over trees x option combinations as a whole (lead-once layout, fold, the outer padding and its condensation): string-valued functional correctness, out of reach of a static argument here.",
 		Run: func(c *Ctx) {
 			c.optionHelpers()
@@ -48,6 +49,8 @@ var properties = map[string]PropSpec{
 			c.ruleCondStringEncap()
 			c.rulePure() // rendering reads and never writes: the text is a function of the current tree and options, not of earlier calls
 			c.ruleFoldTable()      // case folding applies to every non-empty operator word, whatever its length
+			c.ruleNumberStringers() // number text comes from strconv only; the condenser returns what its rune loop built
+			c.ttPrimitiveTests()    // "is a string" is the type test and nothing else (the empty string is a string)
 			c.ruleStringerLookup() // a leaf's String method is looked up on the value as given
 			c.ruleMask()           // an option switched off stays off (presentation options drive the rendering)
 			c.ruleFlagsDistinct()
@@ -90,7 +93,7 @@ var properties = map[string]PropSpec{
 	},
 	"C12": {
 		Level: "other",
-		Explanation: "R-CONV: a user-declared alias of Stack/Condition (or a pointer to one) reaches the same code as the native value - the necessary condition for behaving like it. ASSERT: the package recognises a Stack or Condition by a plain type assertion (which no alias satisfies) nowhere except in the two converters themselves and in three positive fast paths (isNesting, canPushNester, the Condition-side no-nesting filter) whose other branch goes through the converter; the census of such assertions is re-done on every run. FIRST: in condition.string and stack.defaultAssertionHandler a value is rendered through its own String method or the primitive stringer only on paths where both converters have been applied to that very value and declined it, so an alias that has its own String method is still rendered as the Stack/Condition it is. USES: each consumer named by the property (String on both types, IsEqual, Unmarshal on both types, Traverse's two helpers, both IsNesting, Condition.Len, both no-nesting filters, Defrag, Transfer) calls the converter(s); stackageStructsEqual applies IsEqual to the converted first operand with the converted second operand; ConvertStack/ConvertCondition return the converter's results unchanged. SELF: every (zero,false) return path of each converter is justified by a nil argument, a zero native or converted instance, or ConvertibleTo()==false evaluated on derefPtr(typOf(u), valOf(u)) of the argument itself - nothing else can decline a value (e.g. a kind test before pointers are followed). TYPEID: two reflect.Types are compared for identity only inside the confirmed leaf comparers (channels, functions, maps) that valuesEqual reaches after both converters declined. derefPtr follows pointers to the end, and applies Elem()/Indirect only to a Value that tested non-nil (a typed nil pointer to an alias stays a pointer and is declined, not turned into the zero Value). FIRST also covers the equality functions: none of them may judge a value by its own String method before both converters declined it. R-TT on Condition.Valid: validity depends on keyword, operator and expression being present, never on the type of the expression (an alias without a String method of its own is as valid as the native value). R-STR EMPTY: the rendering a nested alias contributes is the one the assertion handler returned, nothing of its own. R-CONV: an element is handed back raw by Unmarshal only where both converters declined it. R-TT on stackageStructsEqual. R-LOOPRET on (*stack).isEqual: the element loop is left early only with a recorded difference - no test of its own (pointer or value) ends it. Shared conversion helpers, checked in every property that recognises nested Stacks/Conditions: derefPtr follows pointers to the end, only while non-nil, type and value together (R-COVER), and isStackKind judges by the pointer-flattened type (R-TT).",
+		Explanation: "R-CONV: a user-declared alias of Stack/Condition (or a pointer to one) reaches the same code as the native value - the necessary condition for behaving like it. ASSERT: the package recognises a Stack or Condition by a plain type assertion (which no alias satisfies) nowhere except in the two converters themselves and in three positive fast paths (isNesting, canPushNester, the Condition-side no-nesting filter) whose other branch goes through the converter; the census of such assertions is re-done on every run. FIRST: in condition.string and stack.defaultAssertionHandler a value is rendered through its own String method or the primitive stringer only on paths where both converters have been applied to that very value and declined it, so an alias that has its own String method is still rendered as the Stack/Condition it is. USES: each consumer named by the property (String on both types, IsEqual, Unmarshal on both types, Traverse's two helpers, both IsNesting, Condition.Len, both no-nesting filters, Defrag, Transfer) calls the converter(s); stackageStructsEqual applies IsEqual to the converted first operand with the converted second operand; ConvertStack/ConvertCondition return the converter's results unchanged. SELF: every (zero,false) return path of each converter is justified by a nil argument, a zero native or converted instance, or ConvertibleTo()==false evaluated on derefPtr(typOf(u), valOf(u)) of the argument itself - nothing else can decline a value (e.g. a kind test before pointers are followed). TYPEID: two reflect.Types are compared for identity only inside the confirmed leaf comparers (channels, functions, maps) that valuesEqual reaches after both converters declined. derefPtr follows pointers to the end, and applies Elem()/Indirect only to a Value that tested non-nil (a typed nil pointer to an alias stays a pointer and is declined, not turned into the zero Value). FIRST also covers the equality functions: none of them may judge a value by its own String method before both converters declined it. R-TT on Condition.Valid: validity depends on keyword, operator and expression being present, never on the type of the expression (an alias without a String method of its own is as valid as the native value). R-STR EMPTY: the rendering a nested alias contributes is the one the assertion handler returned, nothing of its own. R-CONV: an element is handed back raw by Unmarshal only where both converters declined it. R-TT on stackageStructsEqual. R-LOOPRET on (*stack).isEqual: the element loop is left early only with a recorded difference - no test of its own (pointer or value) ends it. Shared conversion helpers, checked in every property that recognises nested Stacks/Conditions: derefPtr follows pointers to the end, only while non-nil, type and value together (R-COVER), isStackKind judges by the pointer-flattened type (R-TT), and the converters write no package-level state (R-CONV: no memo keyed by type).",
 		NotDecided: "that the results (String, IsEqual in both directions, Unmarshal, Traverse, ...) coincide with those of the native tree: functional equality; the rule ensures the alias reaches the native code path. derefPtr's pointer-following loop is covered for panics by C08, not for 'all levels' as a functional statement.",
 		Run: func(c *Ctx) {
 			c.converterHelpers()
@@ -111,7 +114,7 @@ var properties = map[string]PropSpec{
 	},
 	"C16": {
 		Level: "other",
-		Explanation: "Marshal returns normally for every []any and ends in 'error, or an initialised receiver'. PANIC: the nil / type-assertion / bounds / reflect census restricted to everything reachable from Marshal, with preconditions checked at every call site and none allowed at the exported entry: in[0], in[1:], the CONDITION row positions 1..3 and every assertion on a label, keyword, operator or nested slice are guarded for every shape of input (empty and nested envelopes, rows of any width, wrongly typed fields). OUT: marshalDefault's 70-odd return path states each yield a non-nil error, a Stack built by a constructor, or a Condition for which extractConditionValues reported ok (= IsInit() of the Condition it returns, built only from a row of width 4); Marshal's return paths each yield a non-nil error, a receiver seated with the decoded Stack under IsInit()==true, marshalDefault's own error where it produced nothing, or - receiver already initialised - at most one Push of exactly one decoded value. LABEL: every keyword comparison is made on uc(label); the reader knows every word the writer can emit and CONDITION; an unrecognised first element yields Basic().Push(in...), a recognised one stackByWord(label).Push(in[1:]...). ROW: width 4 is required and keyword/operator/expression are read from positions 1/2/3 by checked assertions. REPROC: every nested []any entry 0..Len-1 is decoded by marshalDefault itself and replaced in place by the initialised Stack/Condition it yields. The census covers everything reachable from Marshal, String, Unmarshal and IsEqual (the methods the statement says must return normally on the result). R-CONDSTORE: an operator taken from a CONDITION row is refused, not invoked, when it is nil or a nil pointer. The decoder creates its stacks without a capacity argument. On the built-in path of an initialised receiver Marshal returns nil only where Len() is known to differ from the Len() read before the push (a full, read-only or refusing receiver yields an error); R-DISPATCH for Marshal: no shortcut around the built-in reader. R-NILPTR: a method of the package's own interfaces (Operator, Interface) is invoked on a user-supplied value only where an in-package nil-pointer predicate said no about it, or on the operator stored in a Condition: a nil *Stack / *Condition / *ComparisonOperator among the values never has a method called through it. The census also covers the package's own Operator implementation (ComparisonOperator.String/Context), reached through the interface. R-TT: without no-nesting canPushNester refuses nothing (a zero Stack entry is kept). Labels are folded with strings.ToUpper itself (a hand-written fold is not taken on trust). R-LOCK pairing and re-entrancy over the whole package: Marshal returns on a mutex-enabled receiver, too. R-COVER derefPtr (typed nil pointers in the input: type and value advance together). R-TBL KINDS: every kind constant has the type word's own label. Shared conversion helpers, checked in every property that recognises nested Stacks/Conditions: derefPtr follows pointers to the end, only while non-nil, type and value together (R-COVER), and isStackKind judges by the pointer-flattened type (R-TT).",
+		Explanation: "Marshal returns normally for every []any and ends in 'error, or an initialised receiver'. PANIC: the nil / type-assertion / bounds / reflect census restricted to everything reachable from Marshal, with preconditions checked at every call site and none allowed at the exported entry: in[0], in[1:], the CONDITION row positions 1..3 and every assertion on a label, keyword, operator or nested slice are guarded for every shape of input (empty and nested envelopes, rows of any width, wrongly typed fields). OUT: marshalDefault's 70-odd return path states each yield a non-nil error, a Stack built by a constructor, or a Condition for which extractConditionValues reported ok (= IsInit() of the Condition it returns, built only from a row of width 4); Marshal's return paths each yield a non-nil error, a receiver seated with the decoded Stack under IsInit()==true, marshalDefault's own error where it produced nothing, or - receiver already initialised - at most one Push of exactly one decoded value. LABEL: every keyword comparison is made on uc(label); the reader knows every word the writer can emit and CONDITION; an unrecognised first element yields Basic().Push(in...), a recognised one stackByWord(label).Push(in[1:]...). ROW: width 4 is required and keyword/operator/expression are read from positions 1/2/3 by checked assertions. REPROC: every nested []any entry 0..Len-1 is decoded by marshalDefault itself and replaced in place by the initialised Stack/Condition it yields. The census covers everything reachable from Marshal, String, Unmarshal and IsEqual (the methods the statement says must return normally on the result). R-CONDSTORE: an operator taken from a CONDITION row is refused, not invoked, when it is nil or a nil pointer. The decoder creates its stacks without a capacity argument. On the built-in path of an initialised receiver Marshal returns nil only where Len() is known to differ from the Len() read before the push (a full, read-only or refusing receiver yields an error); R-DISPATCH for Marshal: no shortcut around the built-in reader. R-NILPTR: a method of the package's own interfaces (Operator, Interface) is invoked on a user-supplied value only where an in-package nil-pointer predicate said no about it, or on the operator stored in a Condition: a nil *Stack / *Condition / *ComparisonOperator among the values never has a method called through it. The census also covers the package's own Operator implementation (ComparisonOperator.String/Context), reached through the interface. R-TT: without no-nesting canPushNester refuses nothing (a zero Stack entry is kept). Labels are folded with strings.ToUpper itself (a hand-written fold is not taken on trust). R-LOCK pairing and re-entrancy over the whole package: Marshal returns on a mutex-enabled receiver, too. R-COVER derefPtr (typed nil pointers in the input: type and value advance together). R-TBL KINDS: every kind constant has the type word's own label. Shared conversion helpers, checked in every property that recognises nested Stacks/Conditions: derefPtr follows pointers to the end, only while non-nil, type and value together (R-COVER), isStackKind judges by the pointer-flattened type (R-TT), and the converters write no package-level state (R-CONV: no memo keyed by type).",
 		NotDecided: "what a user-installed marshaler closure does; panics inside user String()/Operator code.",
 		Run: func(c *Ctx) {
 			c.converterHelpers()
@@ -151,7 +154,7 @@ var properties = map[string]PropSpec{
 	},
 	"C04": {
 		Level: "other",
-		Explanation: "Writer (Unmarshal) and reader (Marshal) agree on the wire format - the structural precondition of the round trip. KINDS: constructor -> kind constant -> word (stackType.String) -> constructor (stackByWord) is the identity on AND, OR, NOT, LIST, BASIC, the words are upper case, and the reader's dispatch knows each of them and CONDITION. LABEL: every keyword comparison on the reader side is made on uc(label), so the lower-case words a case-folded stack emits are honoured. WRITE: stack.unmarshalDefault emits the kind word first and then exactly one entry per slot 0..Len-1 in ascending order - nil slots included (no dependence on the lookup's found flag) - a nested Stack or Condition (recognised through both alias converters) as its own unmarshalled form, anything else as is; an error ends the loop. ROW: a Condition is written as [CONDITION, keyword, operator, expression-or-its-Unmarshal()] and read back from a row of width 4, positions 1/2/3, by checked assertions, the expression decoded by marshalDefault when it is a slice. REPROC: the reader re-processes every entry 0..Len-1 of the stack it built and replaces entry i only by the initialised Stack/Condition marshalDefault made of that very entry. R-MARSHAL also requires that the decoder creates its stacks without a capacity argument (a capacity would be observable and could drop entries). R-DISPATCH (restricted to Stack.Unmarshal, Condition.Unmarshal, Marshal): with no closure installed the built-in writer/reader runs on every path - no shortcut around it. R-SEQ (Push wrapper and push loops, from C01): the reader rebuilds through Push, whose arguments reach the worker unchanged and are appended in order. The CONDITION row reader yields no Condition only when its nested expression decoded to neither an initialised Stack nor an initialised Condition (an empty Stack is still a Stack). R-SEQ for Replace (nested rows are converted in place through it: every position 0..Len-1 can be replaced) and R-BACKCAP (the capacity IsEqual compares is the configured one). The label written is the kind word, never a presentation setting; an uninitialised receiver that adopts the decoded stack returns the decoder's own verdict (an empty stack such as [AND] is a stack). R-DISPATCH also covers the two IsEqual dispatchers (with no closure installed nothing but the built-in comparison decides - e.g. not the FIFO mode, which the wire format does not carry) and R-CONV the converters (the writer expands exactly what they recognise). R-CONDSTORE: the constructor the reader rebuilds Conditions through offers each of the three components on every path, with its own argument, whatever became of the others (a partial Condition keeps its expression). R-SEQ: Replace - through which nested rows are installed - refuses a value only for being nil. R-TBL KINDS: (*nodeConfig).kind is evaluated over the kind constants (a small constant interpreter follows its paths with the type word bound to each constant): no defined kind, BASIC included, is labelled \"null\". R-CONV: stack.unmarshalDefault hands an element back raw only where both converters declined that very element. Shared conversion helpers, checked in every property that recognises nested Stacks/Conditions: derefPtr follows pointers to the end, only while non-nil, type and value together (R-COVER), and isStackKind judges by the pointer-flattened type (R-TT).",
+		Explanation: "Writer (Unmarshal) and reader (Marshal) agree on the wire format - the structural precondition of the round trip. KINDS: constructor -> kind constant -> word (stackType.String) -> constructor (stackByWord) is the identity on AND, OR, NOT, LIST, BASIC, the words are upper case, and the reader's dispatch knows each of them and CONDITION. LABEL: every keyword comparison on the reader side is made on uc(label), so the lower-case words a case-folded stack emits are honoured. WRITE: stack.unmarshalDefault emits the kind word first and then exactly one entry per slot 0..Len-1 in ascending order - nil slots included (no dependence on the lookup's found flag) - a nested Stack or Condition (recognised through both alias converters) as its own unmarshalled form, anything else as is; an error ends the loop. ROW: a Condition is written as [CONDITION, keyword, operator, expression-or-its-Unmarshal()] and read back from a row of width 4, positions 1/2/3, by checked assertions, the expression decoded by marshalDefault when it is a slice. REPROC: the reader re-processes every entry 0..Len-1 of the stack it built and replaces entry i only by the initialised Stack/Condition marshalDefault made of that very entry. R-MARSHAL also requires that the decoder creates its stacks without a capacity argument (a capacity would be observable and could drop entries). R-DISPATCH (restricted to Stack.Unmarshal, Condition.Unmarshal, Marshal): with no closure installed the built-in writer/reader runs on every path - no shortcut around it. R-SEQ (Push wrapper and push loops, from C01): the reader rebuilds through Push, whose arguments reach the worker unchanged and are appended in order. The CONDITION row reader yields no Condition only when its nested expression decoded to neither an initialised Stack nor an initialised Condition (an empty Stack is still a Stack). R-SEQ for Replace (nested rows are converted in place through it: every position 0..Len-1 can be replaced) and R-BACKCAP (the capacity IsEqual compares is the configured one). The label written is the kind word, never a presentation setting; an uninitialised receiver that adopts the decoded stack returns the decoder's own verdict (an empty stack such as [AND] is a stack). R-DISPATCH also covers the two IsEqual dispatchers (with no closure installed nothing but the built-in comparison decides - e.g. not the FIFO mode, which the wire format does not carry) and R-CONV the converters (the writer expands exactly what they recognise). R-CONDSTORE: the constructor the reader rebuilds Conditions through offers each of the three components on every path, with its own argument, whatever became of the others (a partial Condition keeps its expression). R-SEQ: Replace - through which nested rows are installed - refuses a value only for being nil. R-TBL KINDS: (*nodeConfig).kind is evaluated over the kind constants (a small constant interpreter follows its paths with the type word bound to each constant): no defined kind, BASIC included, is labelled \"null\". R-CONV: stack.unmarshalDefault hands an element back raw only where both converters declined that very element. Shared conversion helpers, checked in every property that recognises nested Stacks/Conditions: derefPtr follows pointers to the end, only while non-nil, type and value together (R-COVER), isStackKind judges by the pointer-flattened type (R-TT), and the converters write no package-level state (R-CONV: no memo keyed by type).",
 		NotDecided: "that Marshal(Unmarshal(S)) is deeply equal to S (value equality over trees; options such as capacity, fold or symbols are not part of the wire format by design); user-installed marshaler/unmarshaler closures.",
 		Run: func(c *Ctx) {
 			c.converterHelpers()
@@ -183,7 +186,7 @@ var properties = map[string]PropSpec{
 	},
 	"C15": {
 		Level: "other",
-		Explanation: "R-XFER, decided on Stack.Transfer and its worker. SRC: the transitive write sets of both have no location rooted at the source (content, configuration, lock bookkeeping), and an element is pushed only in states where destination != source is established (a stack is never transferred into itself). GUARD: the worker is reached only for an initialised source, a destination the converter accepts (native, alias, pointer) and a destination whose own read-only flag is clear; its verdict is returned and every other path returns false; the worker receives (source, converted destination). FIT: a push is reachable only on paths where the destination has no capacity or Len(src) <= cap(dst) - len(dst) holds for the headers found (linear entailment), so a transfer that does not fit writes nothing and reports false. ALL: the copy loop runs i = 0, 1, ... while i < Len(src), pushes exactly src.index(i) - whether or not the lookup reports it found, so nil elements are copied - once per iteration, and nothing else in the worker writes. TRUE: the verdict is dst.ulen() after the loop == dst.ulen() before it + src.ulen(). R-NIL/R-REFL/R-BND census over Transfer's scope (zero, foreign and typed-nil destinations cannot panic). R-BACKCAP: the room test uses the configured capacity only. R-SEQ (wrappers, push loops, batch forwarding): Transfer appends through Push, whose arguments reach the append loops unchanged. R-SEQ on stack.index, through which the source is read: position translation, found = not nil, and an in-range index yields nothing only for a nil slot (a typed nil pointer element is transferred as it is). Shared option helpers, checked in every property whose statement depends on an option: the bit helpers are exact |= / &^= / test (R-MASK), the option constants are distinct single bits (R-FLAGS), and the tests every option read goes through - (*nodeConfig).valid and getState - depend on the kind word and the raw bit only (R-TT). Shared conversion helpers, checked in every property that recognises nested Stacks/Conditions: derefPtr follows pointers to the end, only while non-nil, type and value together (R-COVER), and isStackKind judges by the pointer-flattened type (R-TT).",
+		Explanation: "R-XFER, decided on Stack.Transfer and its worker. SRC: the transitive write sets of both have no location rooted at the source (content, configuration, lock bookkeeping), and an element is pushed only in states where destination != source is established (a stack is never transferred into itself). GUARD: the worker is reached only for an initialised source, a destination the converter accepts (native, alias, pointer) and a destination whose own read-only flag is clear; its verdict is returned and every other path returns false; the worker receives (source, converted destination). FIT: a push is reachable only on paths where the destination has no capacity or Len(src) <= cap(dst) - len(dst) holds for the headers found (linear entailment), so a transfer that does not fit writes nothing and reports false. ALL: the copy loop runs i = 0, 1, ... while i < Len(src), pushes exactly src.index(i) - whether or not the lookup reports it found, so nil elements are copied - once per iteration, and nothing else in the worker writes. TRUE: the verdict is dst.ulen() after the loop == dst.ulen() before it + src.ulen(). R-NIL/R-REFL/R-BND census over Transfer's scope (zero, foreign and typed-nil destinations cannot panic). R-BACKCAP: the room test uses the configured capacity only. R-SEQ (wrappers, push loops, batch forwarding): Transfer appends through Push, whose arguments reach the append loops unchanged. R-SEQ on stack.index, through which the source is read: position translation, found = not nil, and an in-range index yields nothing only for a nil slot (a typed nil pointer element is transferred as it is). Shared option helpers, checked in every property whose statement depends on an option: the bit helpers are exact |= / &^= / test (R-MASK), the option constants are distinct single bits (R-FLAGS), and the tests every option read goes through - (*nodeConfig).valid and getState - depend on the kind word and the raw bit only (R-TT). Shared conversion helpers, checked in every property that recognises nested Stacks/Conditions: derefPtr follows pointers to the end, only while non-nil, type and value together (R-COVER), isStackKind judges by the pointer-flattened type (R-TT), and the converters write no package-level state (R-CONV: no memo keyed by type).",
 		NotDecided: "that on success the destination holds its previous elements followed by the source's in order (sequence equality: follows from C01's push specification plus ALL, not mechanised as one statement); a destination whose push policy or no-nesting option rejects elements is modified partially and false is returned (outside the statement).",
 		Run: func(c *Ctx) {
 			c.optionHelpers()
@@ -203,7 +206,7 @@ var properties = map[string]PropSpec{
 	},
 	"C05": {
 		Level: "other",
-		Explanation: "Necessary conditions of 'IsEqual rejects any difference and never panics', decided on everything reachable from Stack.IsEqual and Condition.IsEqual. R-LOOPRET (every comparison loop: stack.isEqual, slicesEqual, structsEqual, mapsEqual): the error variable is a latch - each comparison whose verdict is stored into it is made only in states where it is still nil, so a difference found at one element can never be overwritten by a later nil; the function returns that variable (or, straight out of the loop, the verdict/fresh error just obtained); counting loops start at 0, advance by exactly one, fetch both sides at the loop counter itself, are bounded by the length (Len/NumField/ulen) and can be left only when the counter reached the bound, a difference is recorded, or an error is returned. NILRET: each equality function returns nil only on paths on which every comparison it made outside a loop returned nil. R-COVER: on every accepting path of condition.isEqual the keywords were compared equal, the operators are both absent or their String() and Context() were both compared equal, and the verdict returned is valuesEqual(r.ex, o.ex); on every accepting path of stack.isEqual the two are the same object or capLenEqual held, the kinds were compared equal, and the element loop compares r.index(i) with o.index(i). R-NIL/R-REFL/R-CANIF/R-TA/R-BND census over the scope: typed nil pointers of any depth, zero reflect.Values, unexported struct fields, missing map keys cannot panic; every reflect.Value method called is classified (panic conditions tabled or known total) and Value.Equal is reached only with operands accepted by isKnownPrimitive. R-DISPATCH (restricted to the two IsEqual dispatchers): a nil verdict comes from the built-in comparison or from an installed closure, never from an exit taken ahead of them. derefPtr follows a pointer chain to its end: its loop is left only on a non-pointer type, a non-pointer value or a nil pointer (no hop limit). External deciders: every function from outside the package that returns a bool or an int and is called inside the equality scope must be in a table of reviewed functions (reflect's IsValid/IsNil/IsZero/CanInterface/Len/Cap/Equal, unicode.IsUpper in foldValue, exact comparers of strings/bytes); anything else - strings.EqualFold, reflect.DeepEqual, prefix/substring tests - is reported as an unreviewed notion of equality. R-BACKCAP: the capacity compared is the configured one, never the backing array's. R-CONV (all of C12's converter rules): a nested Stack/Condition is declined by the converters only when nil, zero or unrelated - otherwise it would be compared as a plain struct, whose unexported fields are skipped - and type identity is tested only in the confirmed leaf comparers. The kind two stacks are compared by carries no presentation setting (symbol, delimiter). isNumberPrimitive recognises all 14 numeric types of the language; capLenEqual is true exactly when capacities and lengths both agree (R-TT). R-TT on stackageStructsEqual: 'tried' is true exactly when the left operand is a Condition or a Stack, so a Stack against a Condition ends in this function's error and never in the generic struct comparison. Shared conversion helpers, checked in every property that recognises nested Stacks/Conditions: derefPtr follows pointers to the end, only while non-nil, type and value together (R-COVER), and isStackKind judges by the pointer-flattened type (R-TT).",
+		Explanation: "Necessary conditions of 'IsEqual rejects any difference and never panics', decided on everything reachable from Stack.IsEqual and Condition.IsEqual. R-LOOPRET (every comparison loop: stack.isEqual, slicesEqual, structsEqual, mapsEqual): the error variable is a latch - each comparison whose verdict is stored into it is made only in states where it is still nil, so a difference found at one element can never be overwritten by a later nil; the function returns that variable (or, straight out of the loop, the verdict/fresh error just obtained); counting loops start at 0, advance by exactly one, fetch both sides at the loop counter itself, are bounded by the length (Len/NumField/ulen) and can be left only when the counter reached the bound, a difference is recorded, or an error is returned. NILRET: each equality function returns nil only on paths on which every comparison it made outside a loop returned nil. R-COVER: on every accepting path of condition.isEqual the keywords were compared equal, the operators are both absent or their String() and Context() were both compared equal, and the verdict returned is valuesEqual(r.ex, o.ex); on every accepting path of stack.isEqual the two are the same object or capLenEqual held, the kinds were compared equal, and the element loop compares r.index(i) with o.index(i). R-NIL/R-REFL/R-CANIF/R-TA/R-BND census over the scope: typed nil pointers of any depth, zero reflect.Values, unexported struct fields, missing map keys cannot panic; every reflect.Value method called is classified (panic conditions tabled or known total) and Value.Equal is reached only with operands accepted by isKnownPrimitive. R-DISPATCH (restricted to the two IsEqual dispatchers): a nil verdict comes from the built-in comparison or from an installed closure, never from an exit taken ahead of them. derefPtr follows a pointer chain to its end: its loop is left only on a non-pointer type, a non-pointer value or a nil pointer (no hop limit). External deciders: every function from outside the package that returns a bool or an int and is called inside the equality scope must be in a table of reviewed functions (reflect's IsValid/IsNil/IsZero/CanInterface/Len/Cap/Equal, unicode.IsUpper in foldValue, exact comparers of strings/bytes); anything else - strings.EqualFold, reflect.DeepEqual, prefix/substring tests - is reported as an unreviewed notion of equality. R-BACKCAP: the capacity compared is the configured one, never the backing array's. R-CONV (all of C12's converter rules): a nested Stack/Condition is declined by the converters only when nil, zero or unrelated - otherwise it would be compared as a plain struct, whose unexported fields are skipped - and type identity is tested only in the confirmed leaf comparers. The kind two stacks are compared by carries no presentation setting (symbol, delimiter). isNumberPrimitive recognises all 14 numeric types of the language; capLenEqual is true exactly when capacities and lengths both agree (R-TT). R-TT on stackageStructsEqual: 'tried' is true exactly when the left operand is a Condition or a Stack, so a Stack against a Condition ends in this function's error and never in the generic struct comparison. Shared conversion helpers, checked in every property that recognises nested Stacks/Conditions: derefPtr follows pointers to the end, only while non-nil, type and value together (R-COVER), isStackKind judges by the pointer-flattened type (R-TT), and the converters write no package-level state (R-CONV: no memo keyed by type).",
 		NotDecided: "symmetry of the verdict and completeness of rejection for every leaf kind (semantics of reflect.Value.Equal, kind lattice, map iteration): value-level reasoning. Known gap observed by testing, not decided here: a []Stack / []Condition leaf is compared through reflect.Values, which skips the unexported embedded pointer (two such leaves differing only inside a nested stack compare equal).",
 		Run: func(c *Ctx) {
 			c.converterHelpers()
@@ -241,7 +244,7 @@ var properties = map[string]PropSpec{
 	},
 	"C07": {
 		Level: "other",
-		Explanation: "Traverse is implemented by four loop-free, mutually recursive functions; stepwise Index descent is a finite decision at each level, so agreement is decided per level and follows for every path length and tree by induction on the path. R-LEVEL: each level consumes exactly one path element - stack.traverse reads indices[0] only, every call inside the group passes the path on unchanged, and the single recursive call of traverse receives exactly indices[1:]; the path is used for nothing else. R-TRAV (tables, return paths enumerated exactly): traverse hands the handler the element stack.index returned for indices[0] and only when that lookup reported it found (non-nil), otherwise (nil,false) - also for an invalid receiver and an empty path; traverseStack returns (value,true) for a Stack/alias at the end of the path, the results of the descent into the Stack it converts to when elements remain, (nil,false) for a non-Stack; traverseStackInCondition returns (the Condition,true) at the end of the path, continues with the Condition's own Expression() when elements remain, (nil,false) for a non-Condition; the handler returns the Stack helper's results if it succeeded, else the Condition helper's, else (element,true) for a leaf at the end of the path, else (nil,false); Stack.Traverse forwards path and results and yields (nil,false) when uninitialised. Lookup = the same stack.index that Index uses (position translation proved in C01). R-NIL/R-REFL/R-BND/R-TA census restricted to everything reachable from Traverse: no tree or path can panic. R-CONV (from C12): 'descendable' is what the converters say, and they decline only nil, zero and unrelated values on every path (no cached or validity-dependent verdict). stack.traverse gives up (returns nothing without consulting the handler) only because the receiver is invalid, the path is empty or the lookup itself - which honours the index options - reported 'not found'. R-TT on (*stack).valid - the gate of every level: initialised and, if a validity closure is installed, approved by it; nothing else (a recorded error) closes the gate. R-SEQ wrappers: the exported Index returns the private lookup's results unchanged. R-COVER: derefPtr advances type and value together (each Type.Elem with a Value.Elem on the same straight-line path), so a typed nil pointer never reaches Convert with a mismatched type. R-PAIR: Condition.Expression, through which a Condition is descended, answers the stored value on every path of an initialised instance. Shared option helpers, checked in every property whose statement depends on an option: the bit helpers are exact |= / &^= / test (R-MASK), the option constants are distinct single bits (R-FLAGS), and the tests every option read goes through - (*nodeConfig).valid and getState - depend on the kind word and the raw bit only (R-TT). Shared conversion helpers, checked in every property that recognises nested Stacks/Conditions: derefPtr follows pointers to the end, only while non-nil, type and value together (R-COVER), and isStackKind judges by the pointer-flattened type (R-TT).",
+		Explanation: "Traverse is implemented by four loop-free, mutually recursive functions; stepwise Index descent is a finite decision at each level, so agreement is decided per level and follows for every path length and tree by induction on the path. R-LEVEL: each level consumes exactly one path element - stack.traverse reads indices[0] only, every call inside the group passes the path on unchanged, and the single recursive call of traverse receives exactly indices[1:]; the path is used for nothing else. R-TRAV (tables, return paths enumerated exactly): traverse hands the handler the element stack.index returned for indices[0] and only when that lookup reported it found (non-nil), otherwise (nil,false) - also for an invalid receiver and an empty path; traverseStack returns (value,true) for a Stack/alias at the end of the path, the results of the descent into the Stack it converts to when elements remain, (nil,false) for a non-Stack; traverseStackInCondition returns (the Condition,true) at the end of the path, continues with the Condition's own Expression() when elements remain, (nil,false) for a non-Condition; the handler returns the Stack helper's results if it succeeded, else the Condition helper's, else (element,true) for a leaf at the end of the path, else (nil,false); Stack.Traverse forwards path and results and yields (nil,false) when uninitialised. Lookup = the same stack.index that Index uses (position translation proved in C01). R-NIL/R-REFL/R-BND/R-TA census restricted to everything reachable from Traverse: no tree or path can panic. R-CONV (from C12): 'descendable' is what the converters say, and they decline only nil, zero and unrelated values on every path (no cached or validity-dependent verdict). stack.traverse gives up (returns nothing without consulting the handler) only because the receiver is invalid, the path is empty or the lookup itself - which honours the index options - reported 'not found'. R-TT on (*stack).valid - the gate of every level: initialised and, if a validity closure is installed, approved by it; nothing else (a recorded error) closes the gate. R-SEQ wrappers: the exported Index returns the private lookup's results unchanged. R-COVER: derefPtr advances type and value together (each Type.Elem with a Value.Elem on the same straight-line path), so a typed nil pointer never reaches Convert with a mismatched type. R-PAIR: Condition.Expression, through which a Condition is descended, answers the stored value on every path of an initialised instance. Shared option helpers, checked in every property whose statement depends on an option: the bit helpers are exact |= / &^= / test (R-MASK), the option constants are distinct single bits (R-FLAGS), and the tests every option read goes through - (*nodeConfig).valid and getState - depend on the kind word and the raw bit only (R-TT). Shared conversion helpers, checked in every property that recognises nested Stacks/Conditions: derefPtr follows pointers to the end, only while non-nil, type and value together (R-COVER), isStackKind judges by the pointer-flattened type (R-TT), and the converters write no package-level state (R-CONV: no memo keyed by type).",
 		NotDecided: "that the converters recognise exactly the Stack/Condition aliases (C12); equality with an independently written oracle on concrete trees (the induction argument is by reading the tables, not mechanised end to end).",
 		Run: func(c *Ctx) {
 			c.optionHelpers()
@@ -284,7 +287,7 @@ var properties = map[string]PropSpec{
 	},
 	"C20": {
 		Level: "other",
-		Explanation: "Structural necessary conditions of C20, decided on the SSA of everything reachable from Stack.Reveal. (W) The transitive write set of Reveal is {element slot, Condition expression, lock bookkeeping}: no slice header is stored, so no stack changes its length (nothing added, dropped or duplicated by shifting), no configuration word (kind, options, parenthetical flag) is written, nothing is appended. (PROV) The only element-slot store in the scope is replace(), called once (revealDescend), at the index the inner stack was found at, and on every path the value stored is the inner stack itself (re-stored in place) or its only child - the latter exactly under kind != NOT, exactly one element, child is a Stack/Condition (Interface) and neither wrapper nor child parenthetical (facts required on each such path); reveal hands revealDescend the element it found at i together with that i; the only expression store is SetExpression in revealSingle, which gives the Condition back its own (converted, revealed-in-place) expression stack. (ALLOC) No Stack, Condition or configuration is constructed in the scope, so nesting depth cannot grow. (LOCK) In every function of the scope, nothing called while a stack's lock is held (region = CFG-reachable from lock() without passing unlock()) locks the same stack again: no self-deadlock with the mutex enabled. (PANIC) The nil/reflect/type-assertion/bounds census restricted to the scope, with preconditions checked at every call site. R-TT: IsParen on both types answers the raw parenthetical bit (the notion of \"parenthetical\" Reveal's hoist condition reads). R-NILPTR: a method of the package's own interfaces (Operator, Interface) is invoked on a user-supplied value only where an in-package nil-pointer predicate said no about it, or on the operator stored in a Condition: a nil *Stack / *Condition / *ComparisonOperator among the values never has a method called through it. L7: a mutex stored into a configuration is allocated on the spot, so a parent and its members never share one (Reveal locks both). L8: lock() and unlock() reach the mutex under the same tests. R-TT on (*nodeConfig).valid: the option test behind IsParen depends on the kind word only, so a recorded error does not make a parenthetical wrapper look plain. R-COVER derefPtr: the converters Reveal applies to every slot advance type and value together. Shared option helpers, checked in every property whose statement depends on an option: the bit helpers are exact |= / &^= / test (R-MASK), the option constants are distinct single bits (R-FLAGS), and the tests every option read goes through - (*nodeConfig).valid and getState - depend on the kind word and the raw bit only (R-TT). Shared conversion helpers, checked in every property that recognises nested Stacks/Conditions: derefPtr follows pointers to the end, only while non-nil, type and value together (R-COVER), and isStackKind judges by the pointer-flattened type (R-TT).",
+		Explanation: "Structural necessary conditions of C20, decided on the SSA of everything reachable from Stack.Reveal. (W) The transitive write set of Reveal is {element slot, Condition expression, lock bookkeeping}: no slice header is stored, so no stack changes its length (nothing added, dropped or duplicated by shifting), no configuration word (kind, options, parenthetical flag) is written, nothing is appended. (PROV) The only element-slot store in the scope is replace(), called once (revealDescend), at the index the inner stack was found at, and on every path the value stored is the inner stack itself (re-stored in place) or its only child - the latter exactly under kind != NOT, exactly one element, child is a Stack/Condition (Interface) and neither wrapper nor child parenthetical (facts required on each such path); reveal hands revealDescend the element it found at i together with that i; the only expression store is SetExpression in revealSingle, which gives the Condition back its own (converted, revealed-in-place) expression stack. (ALLOC) No Stack, Condition or configuration is constructed in the scope, so nesting depth cannot grow. (LOCK) In every function of the scope, nothing called while a stack's lock is held (region = CFG-reachable from lock() without passing unlock()) locks the same stack again: no self-deadlock with the mutex enabled. (PANIC) The nil/reflect/type-assertion/bounds census restricted to the scope, with preconditions checked at every call site. R-TT: IsParen on both types answers the raw parenthetical bit (the notion of \"parenthetical\" Reveal's hoist condition reads). R-NILPTR: a method of the package's own interfaces (Operator, Interface) is invoked on a user-supplied value only where an in-package nil-pointer predicate said no about it, or on the operator stored in a Condition: a nil *Stack / *Condition / *ComparisonOperator among the values never has a method called through it. L7: a mutex stored into a configuration is allocated on the spot, so a parent and its members never share one (Reveal locks both). L8: lock() and unlock() reach the mutex under the same tests. R-TT on (*nodeConfig).valid: the option test behind IsParen depends on the kind word only, so a recorded error does not make a parenthetical wrapper look plain. R-COVER derefPtr: the converters Reveal applies to every slot advance type and value together. Shared option helpers, checked in every property whose statement depends on an option: the bit helpers are exact |= / &^= / test (R-MASK), the option constants are distinct single bits (R-FLAGS), and the tests every option read goes through - (*nodeConfig).valid and getState - depend on the kind word and the raw bit only (R-TT). Shared conversion helpers, checked in every property that recognises nested Stacks/Conditions: derefPtr follows pointers to the end, only while non-nil, type and value together (R-COVER), isStackKind judges by the pointer-flattened type (R-TT), and the converters write no package-level state (R-CONV: no memo keyed by type).",
 		NotDecided: "that the depth-first leaf sequence is identical before and after for every tree and that both reduce to the same fully-unwrapped form (tree-valued functional equality); deadlock through a stack that contains itself or through two goroutines (C10); user String()/Operator code.",
 		Run: func(c *Ctx) {
 			c.optionHelpers()
@@ -368,7 +371,7 @@ var properties = map[string]PropSpec{
 	},
 	"C06": {
 		Level: "other",
-		Explanation: "Decides the clauses of C06 that are visible in the shape of the code. (1) R-TT: the return paths of Condition.Valid are enumerated exactly and compared, row by row, with the table the property states (nil iff keyword non-empty, operator present - a built-in one within 1..6 - and expression non-nil; an installed validity closure decides instead); the same for the expression filter (defaultAssertionExpressionHandler / assertConditionExpressionValue: empty string, nil, Stack under no-nesting, pending error are refused) and for condition.string (parentheses iff requested, padding iff not disabled). (2) R-CONDSTORE: keyword/operator/expression are written only by their setters and only after the acceptance test (operator: non-nil, not a nil pointer wrapped in the interface - no method of the offered operator is invoked before an in-package predicate, itself checked to return reflect's IsNil() for every pointer, has said no - with non-empty Context() and String(); expression: the value the filter returned with ok==true), so a rejected argument leaves the previous value; Cond records Valid()'s verdict via SetErr; Condition.String renders only when Valid()==nil and returns \"\" otherwise. (3) R-NIL/R-REFL restricted to everything reachable from Cond, Init and the setters/getters: no call panics on nil, empty or wrongly typed arguments. R-IFACECMP: nowhere in the package are two non-nil interface values compared with == / != (that panics for an uncomparable dynamic type such as a slice-based user Operator), except the confirmed sites on reflect.Type values, library sentinels and operands whose kind was just tested. R-NILPTR: a method of the package's own interfaces (Operator, Interface) is invoked on a user-supplied value only where an in-package nil-pointer predicate said no about it, or on the operator stored in a Condition: a nil *Stack / *Condition / *ComparisonOperator among the values never has a method called through it. R-TT on setState (both types): the option switches the statement quantifies over set on true, clear on false and toggle on no argument. Each private setter's write set is exactly its own component (a refused argument has no other effect, e.g. no error recorded that would block later arguments). R-HANDLE: Init replaces the instance on every return path. The keyword is stored only where the argument was recognised (the asserted string, its own String() text, or a helper's first result under a true ok flag), so a wrongly typed argument cannot wipe it; the constructor records no error ahead of the expression; the encapsulation loop of C02 (every wrap is left+v+right, no 'already wrapped' shortcut) is checked here too. ComparisonOperator.Context answers one non-empty constant on every path, so a built-in operator is never refused for its number (an out-of-range one is stored and then reported by Valid). getStringer looks the String method up on the value as given. Keyword/Operator/Expression answer the stored component on every path of an initialised instance, whatever else is on record. R-ENCDUP (from C18): an encapsulation entry is refused only for an exact duplicate. Shared option helpers, checked in every property whose statement depends on an option: the bit helpers are exact |= / &^= / test (R-MASK), the option constants are distinct single bits (R-FLAGS), and the tests every option read goes through - (*nodeConfig).valid and getState - depend on the kind word and the raw bit only (R-TT). Shared conversion helpers, checked in every property that recognises nested Stacks/Conditions: derefPtr follows pointers to the end, only while non-nil, type and value together (R-COVER), and isStackKind judges by the pointer-flattened type (R-TT).",
+		Explanation: "Decides the clauses of C06 that are visible in the shape of the code. (1) R-TT: the return paths of Condition.Valid are enumerated exactly and compared, row by row, with the table the property states (nil iff keyword non-empty, operator present - a built-in one within 1..6 - and expression non-nil; an installed validity closure decides instead); the same for the expression filter (defaultAssertionExpressionHandler / assertConditionExpressionValue: empty string, nil, Stack under no-nesting, pending error are refused) and for condition.string (parentheses iff requested, padding iff not disabled). (2) R-CONDSTORE: keyword/operator/expression are written only by their setters and only after the acceptance test (operator: non-nil, not a nil pointer wrapped in the interface - no method of the offered operator is invoked before an in-package predicate, itself checked to return reflect's IsNil() for every pointer, has said no - with non-empty Context() and String(); expression: the value the filter returned with ok==true), so a rejected argument leaves the previous value; Cond records Valid()'s verdict via SetErr; Condition.String renders only when Valid()==nil and returns \"\" otherwise. (3) R-NIL/R-REFL restricted to everything reachable from Cond, Init and the setters/getters: no call panics on nil, empty or wrongly typed arguments. R-IFACECMP: nowhere in the package are two non-nil interface values compared with == / != (that panics for an uncomparable dynamic type such as a slice-based user Operator), except the confirmed sites on reflect.Type values, library sentinels and operands whose kind was just tested. R-NILPTR: a method of the package's own interfaces (Operator, Interface) is invoked on a user-supplied value only where an in-package nil-pointer predicate said no about it, or on the operator stored in a Condition: a nil *Stack / *Condition / *ComparisonOperator among the values never has a method called through it. R-TT on setState (both types): the option switches the statement quantifies over set on true, clear on false and toggle on no argument. Each private setter's write set is exactly its own component (a refused argument has no other effect, e.g. no error recorded that would block later arguments). R-HANDLE: Init replaces the instance on every return path. The keyword is stored only where the argument was recognised (the asserted string, its own String() text, or a helper's first result under a true ok flag), so a wrongly typed argument cannot wipe it; the constructor records no error ahead of the expression; the encapsulation loop of C02 (every wrap is left+v+right, no 'already wrapped' shortcut) is checked here too. ComparisonOperator.Context answers one non-empty constant on every path, so a built-in operator is never refused for its number (an out-of-range one is stored and then reported by Valid). getStringer looks the String method up on the value as given. Keyword/Operator/Expression answer the stored component on every path of an initialised instance, whatever else is on record. R-ENCDUP (from C18): an encapsulation entry is refused only for an exact duplicate. Shared option helpers, checked in every property whose statement depends on an option: the bit helpers are exact |= / &^= / test (R-MASK), the option constants are distinct single bits (R-FLAGS), and the tests every option read goes through - (*nodeConfig).valid and getState - depend on the kind word and the raw bit only (R-TT). Shared conversion helpers, checked in every property that recognises nested Stacks/Conditions: derefPtr follows pointers to the end, only while non-nil, type and value together (R-COVER), isStackKind judges by the pointer-flattened type (R-TT), and the converters write no package-level state (R-CONV: no memo keyed by type). isNilPtr says yes only where Kind()==Ptr and IsNil() (a nil map/slice/func used as an operator is a usable value). R-ENCDUP: once a duplicate was found no further comparison is made (a later one could overwrite the verdict).",
 		NotDecided: "the exact rendered text (spacing, encapsulated expression rendering) - a string-valued functional property (C02's undecided part); behaviour of user Operator/Stringer implementations",
 		Run: func(c *Ctx) {
 			c.optionHelpers()
@@ -392,6 +395,7 @@ var properties = map[string]PropSpec{
 			c.ttSetState()  // the option setters the statement quantifies over: set on true, clear on false, toggle on no argument
 			c.ruleHandle()  // Init always replaces the instance
 			c.ruleOpContext()      // a built-in operator cannot be refused for its number: its context is one non-empty constant
+			c.ruleNilPtrExact()    // ... nor for being a nil map/slice/func: isNilPtr says yes only about pointers
 			c.ruleStringerLookup() // stringer keywords/expressions: the method is looked up on the value as given
 			c.ruleCondGetters()    // the getters answer the stored component whenever the instance is initialised
 			c.ruleSettingsGuards() // an encapsulation entry is refused only for an exact duplicate (R-ENCDUP)
@@ -402,13 +406,16 @@ var properties = map[string]PropSpec{
 	},
 	"C14": {
 		Level: "other",
-		Explanation: "R-DISPATCH: for each of the 12 closure slots' dispatchers (Valid, String, IsEqual, Unmarshal, Marshal, Less, Evaluate on both types; push) the return paths are enumerated: the installed closure is invoked exactly when the slot is non-nil, the built-in implementation does not run on that path, the dispatcher returns the closure's own result (for Stack validity: true exactly when the closure returns nil), and with a nil slot the built-in code runs; an exit taken before the slot is looked at may only refuse (a non-nil error, false, the empty string) unless the receiver is uninitialised - a positive verdict never bypasses an installed closure. R-SETTER: each exported setter stores its argument (nil included, so removal restores the default) into exactly its own slot. R-APPEND/R-POLICY: in the policy-gated append the policy is consulted only while isFull()==false (same memory epoch), once per loop iteration, the appended value is the approved one, a rejection calls setErr with the policy's own error and cannot reach another policy call or append; on every return path that follows a rejection setErr(policy error) has been executed (no condition can suppress the report), and the per-value loop is left only past the last value, on a full stack or on a rejection. R-BASIC: a BASIC stack never stores a presentation policy and records a non-nil error; rendering is gated by canString (table checked: initialised, valid per the validity closure, kind neither 0 nor BASIC). The closure a dispatcher invokes is the receiver's own on every path (its value mentions the receiver and no other parameter: an operand's or element's policy is never borrowed). Inside an iteration of the policy loop only the fullness test can bypass the policy call: no other filter drops a value without the policy having seen it. The closure is handed the dispatcher's own receiver and parameters as given - no argument is a computed value (an unwrapped or filtered list). Every setErr/SetErr stores or forwards the error parameter itself, so Err() reports the policy's own error value (errors.Is / == hold). R-TT on Stack.Valid: nil exactly when the handle is set and the worker - hence the closure - approves; a recorded error does not overrule an approving closure.",
+		Explanation: "R-DISPATCH: for each of the 12 closure slots' dispatchers (Valid, String, IsEqual, Unmarshal, Marshal, Less, Evaluate on both types; push) the return paths are enumerated: the installed closure is invoked exactly when the slot is non-nil, the built-in implementation does not run on that path, the dispatcher returns the closure's own result (for Stack validity: true exactly when the closure returns nil), and with a nil slot the built-in code runs; an exit taken before the slot is looked at may only refuse (a non-nil error, false, the empty string) unless the receiver is uninitialised - a positive verdict never bypasses an installed closure. R-SETTER: each exported setter stores its argument (nil included, so removal restores the default) into exactly its own slot. R-APPEND/R-POLICY: in the policy-gated append the policy is consulted only while isFull()==false (same memory epoch), once per loop iteration, the appended value is the approved one, a rejection calls setErr with the policy's own error and cannot reach another policy call or append; on every return path that follows a rejection setErr(policy error) has been executed (no condition can suppress the report), and the per-value loop is left only past the last value, on a full stack or on a rejection. R-BASIC: a BASIC stack never stores a presentation policy and records a non-nil error; rendering is gated by canString (table checked: initialised, valid per the validity closure, kind neither 0 nor BASIC). The closure a dispatcher invokes is the receiver's own on every path (its value mentions the receiver and no other parameter: an operand's or element's policy is never borrowed). Inside an iteration of the policy loop only the fullness test can bypass the policy call: no other filter drops a value without the policy having seen it. The closure is handed the dispatcher's own receiver and parameters as given - no argument is a computed value (an unwrapped or filtered list). Every setErr/SetErr stores or forwards the error parameter itself, so Err() reports the policy's own error value (errors.Is / == hold). R-TT on Stack.Valid: nil exactly when the handle is set and the worker - hence the closure - approves; a recorded error does not overrule an approving closure. R-SETTER: each exported closure setter stores on every path of an initialised, writable receiver - whatever the argument (nil removes) and whatever else the instance's state (a rejecting validity closure cannot make itself irremovable). R-BACKCAP/R-CAPEQ: 'while room remains' is judged against the configured capacity. R-SEQ: the exported Push stores nothing itself, so no value bypasses the policy-gated worker.",
 		NotDecided: "what the closures themselves do; 'once per offered value' is decided structurally (one call site inside the per-value loop), not as a count over executions",
 		Run: func(c *Ctx) {
 			c.ruleDispatch()
 			c.rulePushLoops()
 			c.ruleBasicRefusal()
 			c.ruleSetErrVerbatim()  // Err() reports the policy's own error value, not a copy
+			c.ruleBackingCap()      // "while room remains" is judged against the configured capacity
+			c.ruleCapEq()
+			c.seqWrappers()         // the exported Push stores nothing itself: every value goes through the policy-gated worker
 			c.ttStackValidWrapper() // Stack.Valid: an error exactly when the worker (hence the closure) says no
 			c.rep.floor("R-DISPATCH", 12)
 			c.rep.floor("R-SETTER", 12)
@@ -418,7 +425,7 @@ var properties = map[string]PropSpec{
 	},
 	"C13": {
 		Level: "other",
-		Explanation: "Both clauses of C13 are finite predicates and are decided exactly. R-TT enumerates the return paths of canPushNester (accept = not(isStack and no-nesting)), of Stack.CanNest / Condition.CanNest (initialised and bit clear) and of the Condition-side filter (a Stack is refused exactly under no-nesting; the previous expression is kept because the store is gated, R-CONDSTORE). R-APPEND proves that in the per-value loop the append is gated by the verdict on that very value and by isFull()==false with no write in between. R-APPEND also proves that every offered value gets its turn: the per-value loop visits x[0], x[1], ... up to len(x) and is left only past the last value, on a full stack, or (policy loop) on a rejection - a value refused by the no-nesting test does not end the batch. R-OPTW proves that switching the option writes only the option word, so elements already present are untouched; R-MASK/R-FLAGS prove that the switch itself is exactly |= / &^= of one distinct bit (a redundant 'off' stays off). R-TT: Stack.IsNesting answers its scan's verdict for every initialised receiver whatever the option says (no cached or option-dependent shortcut), and condition.isNesting is exactly isStackKind of the expression. R-CONDSTORE: setExpression writes nothing but the expression (a refused Stack leaves no trace that would make later arguments be refused). The worker push appends nothing itself: every value goes through one of the two per-value loops, hence through the no-nesting test. R-COVER: derefPtr flattens type and value in step in one loop, so a typed nil pointer to a Stack is not judged to be a Stack. Shared option helpers, checked in every property whose statement depends on an option: the bit helpers are exact |= / &^= / test (R-MASK), the option constants are distinct single bits (R-FLAGS), and the tests every option read goes through - (*nodeConfig).valid and getState - depend on the kind word and the raw bit only (R-TT). Shared conversion helpers, checked in every property that recognises nested Stacks/Conditions: derefPtr follows pointers to the end, only while non-nil, type and value together (R-COVER), and isStackKind judges by the pointer-flattened type (R-TT).",
+		Explanation: "Both clauses of C13 are finite predicates and are decided exactly. R-TT enumerates the return paths of canPushNester (accept = not(isStack and no-nesting)), of Stack.CanNest / Condition.CanNest (initialised and bit clear) and of the Condition-side filter (a Stack is refused exactly under no-nesting; the previous expression is kept because the store is gated, R-CONDSTORE). R-APPEND proves that in the per-value loop the append is gated by the verdict on that very value and by isFull()==false with no write in between. R-APPEND also proves that every offered value gets its turn: the per-value loop visits x[0], x[1], ... up to len(x) and is left only past the last value, on a full stack, or (policy loop) on a rejection - a value refused by the no-nesting test does not end the batch. R-OPTW proves that switching the option writes only the option word, so elements already present are untouched; R-MASK/R-FLAGS prove that the switch itself is exactly |= / &^= of one distinct bit (a redundant 'off' stays off). R-TT: Stack.IsNesting answers its scan's verdict for every initialised receiver whatever the option says (no cached or option-dependent shortcut), and condition.isNesting is exactly isStackKind of the expression. R-CONDSTORE: setExpression writes nothing but the expression (a refused Stack leaves no trace that would make later arguments be refused). The worker push appends nothing itself: every value goes through one of the two per-value loops, hence through the no-nesting test. R-COVER: derefPtr flattens type and value in step in one loop, so a typed nil pointer to a Stack is not judged to be a Stack. Shared option helpers, checked in every property whose statement depends on an option: the bit helpers are exact |= / &^= / test (R-MASK), the option constants are distinct single bits (R-FLAGS), and the tests every option read goes through - (*nodeConfig).valid and getState - depend on the kind word and the raw bit only (R-TT). Shared conversion helpers, checked in every property that recognises nested Stacks/Conditions: derefPtr follows pointers to the end, only while non-nil, type and value together (R-COVER), isStackKind judges by the pointer-flattened type (R-TT), and the converters write no package-level state (R-CONV: no memo keyed by type). R-SEQ: the exported Push stores nothing into the stack itself - every value goes through the worker and its no-nesting test. R-SWITCH: SetNoNesting and its deprecated alias drive the nnest bit with the caller's own argument on every path.",
 		NotDecided: "IsNesting's scan over all elements is checked only through the converter rules of C12 (not claimed here); behaviour under a custom push policy (documented to ignore the option)",
 		Run: func(c *Ctx) {
 			c.optionHelpers()
@@ -435,6 +442,8 @@ var properties = map[string]PropSpec{
 			c.ruleMask() // switching the option on and off is exactly |= and &^= of its own bit
 			c.ruleFlagsDistinct()
 			c.ruleDerefLoop() // "is a Stack" is judged on type and value flattened in step (a typed nil pointer is not a Stack)
+			c.seqWrappers()      // the exported Push stores nothing itself: every value goes through the worker, hence through the test
+			c.ruleSwitchTable()  // the switch and its deprecated alias drive the no-nesting bit with the caller's argument
 			c.rep.floor("R-MASK", 11)
 			c.rep.floor("R-FLAGS", 22)
 			c.rep.floor("R-TT", 5)
@@ -445,7 +454,7 @@ var properties = map[string]PropSpec{
 	},
 	"C18": {
 		Level: "other",
-		Explanation: "R-FLAGS: the option constants are pairwise distinct single bits. R-MASK: shift/unshift/toggle/positive and their wrappers are exactly |=, &^=, test-and-branch on (receiver, parameter) - switching one option cannot alter another. R-TT: setState (both types) is compared row by row with the prescribed tri-state table (set on true, clear on false, toggle on no argument, nothing when uninitialised or read-only unless the flag is the read-only flag itself); the getters IsParen/IsPadded/IsReadOnly/CanNest have the stated polarity on both types. R-SWITCH: every public switch drives the option the documentation names, forwards its argument unchanged, and Stack/Condition agree. R-OPTW (in C13) / write sets: a switch writes only the option word. R-LATCH: FIFO mode is stored only after reading it as false with no write in between. R-PAIR: each setter/getter pair (ID, category, delimiter, auxiliary, error, keyword, operator, expression) goes through one field. R-KINDGUARD: the delimiter is stored only on LIST stacks, the symbol only on non-LIST stacks (the kind itself is immutable after construction). R-ENCDUP: an encapsulation entry is appended only when the duplicate scan found nothing (found-flag or early-return idiom), and the scan compares every character of the new entry (its length is taken from the call sites) with every existing pair, its loops being left only past their bound or on a duplicate. R-LOGLEVEL: the level set is merged with exactly |= / &^= of the resolved level; the shortcuts exist and are guarded (set: level exactly 0 -> none, and only when the argument did resolve to a level; level exactly 65535 -> all; unset: level exactly 65535 -> none); a raw integer is converted to a level only inside 0..65535; the two name tables are mutually inverse. R-PAIR for the auxiliary map: a map other than the caller's is stored only where no argument was given or it is known nil (an empty non-nil map is kept as given). R-LOGLEVEL: the merge can be bypassed only by the loop test, the shortcuts and the resolution flag. R-STR VERBATIM (from C02): symbol and delimiter reach the rendering exactly as stored, the symbol is never case-folded. R-TT on getState: the getters' source is the raw bit. A raw integer is converted to a level exactly when it lies in 0..65535 (every value in the range is accepted, none outside). R-PURE (the effect analysis of C11): a getter computes its answer from the current settings and writes nothing - no memo that a later change could fail to invalidate. The symbol is stored on every path of a non-LIST stack (an explicit empty string clears it). LogLevels(): the listing loop of logLevels.String is unrolled over its constants and must test all 16 single bits. R-SWITCH: every return path of a public switch has executed setState (or its alias), except for an uninitialised receiver - no state of the instance makes a switch a silent no-op. R-TT on (*nodeConfig).valid: the verdict every option test consults depends on the kind word only. Shared option helpers, checked in every property whose statement depends on an option: the bit helpers are exact |= / &^= / test (R-MASK), the option constants are distinct single bits (R-FLAGS), and the tests every option read goes through - (*nodeConfig).valid and getState - depend on the kind word and the raw bit only (R-TT).",
+		Explanation: "R-FLAGS: the option constants are pairwise distinct single bits. R-MASK: shift/unshift/toggle/positive and their wrappers are exactly |=, &^=, test-and-branch on (receiver, parameter) - switching one option cannot alter another. R-TT: setState (both types) is compared row by row with the prescribed tri-state table (set on true, clear on false, toggle on no argument, nothing when uninitialised or read-only unless the flag is the read-only flag itself); the getters IsParen/IsPadded/IsReadOnly/CanNest have the stated polarity on both types. R-SWITCH: every public switch drives the option the documentation names, forwards its argument unchanged, and Stack/Condition agree. R-OPTW (in C13) / write sets: a switch writes only the option word. R-LATCH: FIFO mode is stored only after reading it as false with no write in between. R-PAIR: each setter/getter pair (ID, category, delimiter, auxiliary, error, keyword, operator, expression) goes through one field. R-KINDGUARD: the delimiter is stored only on LIST stacks, the symbol only on non-LIST stacks (the kind itself is immutable after construction). R-ENCDUP: an encapsulation entry is appended only when the duplicate scan found nothing (found-flag or early-return idiom), and the scan compares every character of the new entry (its length is taken from the call sites) with every existing pair, its loops being left only past their bound or on a duplicate. R-LOGLEVEL: the level set is merged with exactly |= / &^= of the resolved level; the shortcuts exist and are guarded (set: level exactly 0 -> none, and only when the argument did resolve to a level; level exactly 65535 -> all; unset: level exactly 65535 -> none); a raw integer is converted to a level only inside 0..65535; the two name tables are mutually inverse. R-PAIR for the auxiliary map: a map other than the caller's is stored only where no argument was given or it is known nil (an empty non-nil map is kept as given). R-LOGLEVEL: the merge can be bypassed only by the loop test, the shortcuts and the resolution flag. R-STR VERBATIM (from C02): symbol and delimiter reach the rendering exactly as stored, the symbol is never case-folded. R-TT on getState: the getters' source is the raw bit. A raw integer is converted to a level exactly when it lies in 0..65535 (every value in the range is accepted, none outside). R-PURE (the effect analysis of C11): a getter computes its answer from the current settings and writes nothing - no memo that a later change could fail to invalidate. The symbol is stored on every path of a non-LIST stack (an explicit empty string clears it). LogLevels(): the listing loop of logLevels.String is unrolled over its constants and must test all 16 single bits. R-SWITCH: every return path of a public switch has executed setState (or its alias), except for an uninitialised receiver - no state of the instance makes a switch a silent no-op. R-TT on (*nodeConfig).valid: the verdict every option test consults depends on the kind word only. Shared option helpers, checked in every property whose statement depends on an option: the bit helpers are exact |= / &^= / test (R-MASK), the option constants are distinct single bits (R-FLAGS), and the tests every option read goes through - (*nodeConfig).valid and getState - depend on the kind word and the raw bit only (R-TT). R-PAIR: newLogSystem returns a fresh allocation on every path (log levels are per instance); ID and category reach the record as given - the caller's own parameter or, for the magic ID words, the generated value - and the record stores exactly what it is handed.",
 		NotDecided: "'reflected in String()' for symbol and encapsulation (string-valued, C02's undecided part); the _random/_addr ID keywords; polarity of lead-once / fold / padding inside the rendering loop",
 		Run: func(c *Ctx) {
 			c.optionHelpers()
@@ -465,6 +474,8 @@ var properties = map[string]PropSpec{
 			c.ruleSettingsGuards()
 			c.ruleLogLevels()
 			c.ruleLogLevelsListing() // the getter's text lists every active level (all 16 bits are tested)
+			c.ruleFreshLogSystem()   // log levels are per instance: every constructor call allocates its own log system
+			c.ruleIDVerbatim()       // ID and category are stored as given (no folding), the magic ID words aside
 			c.ttCfgValid()           // the option test depends on the kind word only
 			c.ruleStrVerbatimSettings() // symbol and delimiter reach the rendering exactly as stored
 			c.ttGetState()
@@ -520,7 +531,7 @@ var properties = map[string]PropSpec{
 	},
 	"C09": {
 		Level: "proof",
-		Explanation: "Effect analysis over the type-checked SSA of every exported Stack/Condition method (enumerated from go/types on each run): every store, append, map update or lock call whose target is rooted at the receiver - directly or through any chain of in-package callees - must be reached only through the false edge of getState(recv, ronly) (rule R-RO, path-sensitive DNF facts; setState's `|| cf == ronly` arm is followed to the constant each caller passes). Exemptions are exactly those of the statement (SetReadOnly/ReadOnly: the option word; SetErr: the error field; Condition.Init: the handle; Marshal: the handle of an uninitialised receiver). R-RO-ARG: an exported method that writes the shared state of an object handed in as an argument (Transfer's destination) does so only after that object's own read-only flag tested false. R-RO-NESTED: wherever code reachable from an exported method reaches into a nested Stack or Condition (an element of the receiver, a Condition's expression - Reveal, Defrag), every write of the nested object is dominated by the false edge of the nested object's own read-only test (lock bookkeeping excepted), so a writable parent cannot change a read-only child. R-MASK/R-FLAGS prove that switching the read-only bit touches no other bit; R-RO-FREE proves Free returns a non-nil error when the flag is set. R-TT on getState itself (both types): it answers the raw option bit of an initialised instance, false otherwise, and nothing reachable from it calls user code - so no validity closure or other user code can make the guards fail open. R-TT on (*nodeConfig).valid: the record's own validity, which positive() and so every guard consults, is 'exists and has a kind word' and nothing else - a recorded error (SetErr is a permitted exception) cannot switch the guards off. Shared option helpers, checked in every property whose statement depends on an option: the bit helpers are exact |= / &^= / test (R-MASK), the option constants are distinct single bits (R-FLAGS), and the tests every option read goes through - (*nodeConfig).valid and getState - depend on the kind word and the raw bit only (R-TT).",
+		Explanation: "Effect analysis over the type-checked SSA of every exported Stack/Condition method (enumerated from go/types on each run): every store, append, map update or lock call whose target is rooted at the receiver - directly or through any chain of in-package callees - must be reached only through the false edge of getState(recv, ronly) (rule R-RO, path-sensitive DNF facts; setState's `|| cf == ronly` arm is followed to the constant each caller passes). Exemptions are exactly those of the statement (SetReadOnly/ReadOnly: the option word; SetErr: the error field; Condition.Init: the handle; Marshal: the handle of an uninitialised receiver). R-RO-ARG: an exported method that writes the shared state of an object handed in as an argument (Transfer's destination) does so only after that object's own read-only flag tested false. R-RO-NESTED: wherever code reachable from an exported method reaches into a nested Stack or Condition (an element of the receiver, a Condition's expression - Reveal, Defrag), every write of the nested object is dominated by the false edge of the nested object's own read-only test (lock bookkeeping excepted), so a writable parent cannot change a read-only child. R-MASK/R-FLAGS prove that switching the read-only bit touches no other bit; R-RO-FREE proves Free returns a non-nil error when the flag is set. R-TT on getState itself (both types): it answers the raw option bit of an initialised instance, false otherwise, and nothing reachable from it calls user code - so no validity closure or other user code can make the guards fail open. R-TT on (*nodeConfig).valid: the record's own validity, which positive() and so every guard consults, is 'exists and has a kind word' and nothing else - a recorded error (SetErr is a permitted exception) cannot switch the guards off. Shared option helpers, checked in every property whose statement depends on an option: the bit helpers are exact |= / &^= / test (R-MASK), the option constants are distinct single bits (R-FLAGS), and the tests every option read goes through - (*nodeConfig).valid and getState - depend on the kind word and the raw bit only (R-TT). R-RO-NESTED treats a write into the cell a *stack / *condition argument points at as a write to the nested object unless that argument is the address of a local copy (a private setter called on a nested Condition's own pointer is a write to that Condition).",
 		NotDecided: "effects of user closures and user String()/Operator methods; contents of the user-owned Auxiliary map",
 		Trusted: []string{"root tracing of effects.go (unknown roots fail the check)", "no unsafe and no reflective setters in the package (re-checked each run)"},
 		Run: func(c *Ctx) {
@@ -555,4 +566,5 @@ func (c *Ctx) optionHelpers() {
 func (c *Ctx) converterHelpers() {
 	c.ruleDerefLoop()
 	c.ttIsStackKind()
+	c.ruleConvPure()
 }
